@@ -24,22 +24,34 @@ package s3bolt
 
 //@ func (*Backend).metaBucket
 //@ props C10 C02 C09
-//@ requires          args:   db != nil && tx != nil
+//@ requires          args:   bdb(db) && tx != nil
 //@ unproved pre:*notmeta* this is the one place that is meant to open the bookkeeping bucket
 //@ ensures            plain:  imp(ret1 != nil, errcode(ret1) == "" && io_fails > old(io_fails)) && imp(ret1 == nil, io_fails == old(io_fails))
-//@ modifies io_fails
+//@ ensures [C10]      meta:   imp(ret0 != nil, ret0.bucket != nil && bk_name(ret0.bucket) == "_meta" && fresh(ret0))
+//@ ensures            wr:     imp(tx.Writable() && ret1 == nil, ret0 != nil)
+//@ ensures [C10]      keep:   bk_has("_meta") == old(bk_has("_meta")) || (!old(bb_exists("_meta")) && allstr(k, !bk_has("_meta", k)))
+//@ modifies io_fails, bb_exists("_meta"), bk_has("_meta")
 
-// helpers that only talk to the bookkeeping bucket (bson encoding + Bucket.Put/Get/Delete on "_meta"): trusted to
-// leave Go state and every other bucket alone and to fail only with plain errors; the content of the bookkeeping
-// bucket itself is not modelled (clauses about "other buckets" below exclude it)
+// The bookkeeping records: one key "bucket/<name>" per S3 bucket in the bolt bucket "_meta". Creating and
+// deleting a bucket's record touches that one key only (C10: no other bucket's record changes).
+//@ func bucketMetaKey
+//@ props C10 C09
+//@ ensures [C10]      key:    str(ret0) == "bucket/" + name && allocated(ret0)
+//@ modifies nothing
+
 //@ func (*metaBucket).createS3Bucket
-//@ nobody
+//@ props C10 C02 C09
+//@ requires           mb:     mb != nil && mb.bucket != nil && bk_name(mb.bucket) == "_meta"
 //@ ensures            plain:  imp(ret0 != nil, errcode(ret0) == "" && io_fails > old(io_fails)) && imp(ret0 == nil, io_fails == old(io_fails))
-//@ modifies io_fails
+//@ ensures [C10]      one:    allstr(k, imp(k != "bucket/" + bucket, bk_has("_meta", k) == old(bk_has("_meta", k)) && bk_val("_meta", k) == old(bk_val("_meta", k))))
+//@ modifies io_fails, bk_has("_meta"), bk_val("_meta")
 //@ func (*metaBucket).deleteS3Bucket
-//@ nobody
+//@ props C10 C02 C09
+//@ requires           mb:     mb != nil && mb.bucket != nil && bk_name(mb.bucket) == "_meta"
 //@ ensures            plain:  imp(ret0 != nil, errcode(ret0) == "" && io_fails > old(io_fails)) && imp(ret0 == nil, io_fails == old(io_fails))
-//@ modifies io_fails
+//@ ensures [C10]      one:    allstr(k, imp(k != "bucket/" + bucket, bk_has("_meta", k) == old(bk_has("_meta", k))))
+//@ modifies io_fails, bk_has("_meta")
+// reading a record back (bson decoding of boltBucket) is trusted to leave everything alone
 //@ func (*metaBucket).s3Bucket
 //@ nobody
 //@ ensures            plain:  imp(ret1 != nil, errcode(ret1) == "" && io_fails > old(io_fails)) && imp(ret1 == nil, io_fails == old(io_fails))
@@ -68,12 +80,13 @@ package s3bolt
 
 //@ lib bson.Marshal
 //@ let X = dyn(in, *s3bolt.boltObject)
+//@ ensures            io:     imp(ret1 != nil, io_fails == old(io_fails) + 1) && imp(ret1 == nil, io_fails == old(io_fails))
 //@ ensures            enc:    imp(ret1 == nil && typeis(in, *s3bolt.boltObject), ret0 != nil &&
 //@                              bsName(ret0) == X.Name && bsSize(ret0) == X.Size && bsMeta(ret0) == X.Metadata &&
 //@                              bsLen(ret0) == len(X.Contents) && all(i, 0, len(X.Contents), bsByte(ret0, i) == X.Contents[i]) &&
 //@                              bsHLen(ret0) == len(X.Hash) && all(i, 0, len(X.Hash), bsHByte(ret0, i) == X.Hash[i]))
 //@ ensures            err:    imp(ret1 != nil, errcode(ret1) == "")
-//@ modifies nothing
+//@ modifies io_fails
 
 //@ lib bson.Unmarshal
 //@ let X = dyn(out, *s3bolt.boltObject)
@@ -92,7 +105,7 @@ package s3bolt
 //@ requires [C11]     req:    gofakes3.wfRangeReq(rangeRequest)
 //@ ensures [C11]      badrange: imp(ret1 != nil, ret0 == nil && errcode(ret1) == gofakes3.ErrInvalidRange && rangeRequest != nil)
 //@ ensures [C11]      bad:    imp(rangeRequest != nil && !gofakes3.specRangeOK(rangeRequest.FromEnd, rangeRequest.Start, rangeRequest.End, b.Size), ret1 != nil)
-//@ ensures [C01]      fields: imp(ret1 == nil, ret0 != nil && ret0.Name == objectName && ret0.Size == b.Size && ret0.Hash == b.Hash &&
+//@ ensures [C01,C11]  fields: imp(ret1 == nil, ret0 != nil && ret0.Name == objectName && ret0.Size == b.Size && ret0.Hash == b.Hash &&
 //@                              ret0.Metadata == b.Metadata && ret0.Contents != nil && ret0.VersionID == "" && !ret0.IsDeleteMarker)
 //@ ensures [C11]      range:  imp(ret1 == nil && rangeRequest != nil, ret0.Range != nil &&
 //@                              ret0.Range.Start == gofakes3.specRangeStart(rangeRequest.FromEnd, rangeRequest.Start, rangeRequest.End, b.Size) &&
@@ -159,16 +172,17 @@ package s3bolt
 //@ ensures [C02]     dup:    imp(name != "_meta" && old(bb_exists(name)), ret0 != nil && imp(io_fails == old(io_fails), errcode(ret0) == gofakes3.ErrBucketAlreadyExists))
 //@ ensures [C10]     meta:   imp(name == "_meta", errcode(ret0) == gofakes3.ErrInvalidBucketName)
 //@ ensures [C02]     made:   imp(ret0 == nil, !old(bb_exists(name)) && bb_exists(name) && allstr(k, !bk_has(name, k)))
-//@ ensures [C02,C10] others: imp(ret0 == nil, allstr(bn, imp(bn != name && bn != "_meta", bb_exists(bn) == old(bb_exists(bn)) && bk_has(bn) == old(bk_has(bn)))) && bk_val == old(bk_val))
+//@ ensures [C02,C10] others: imp(ret0 == nil, allstr(bn, imp(bn != name && bn != "_meta", bb_exists(bn) == old(bb_exists(bn)) && bk_has(bn) == old(bk_has(bn)) && bk_val(bn) == old(bk_val(bn)))))
 //@ ensures [C02,C08] reject: imp(ret0 != nil, bb_exists == old(bb_exists) && bk_has == old(bk_has) && bk_val == old(bk_val))
 //@ func (*Backend).CreateBucket$1
 //@ props C02 C10 C09
 //@ requires [C10]    notmeta: *name != "_meta"
 //@ requires          args:   tx != nil && name != nil && db != nil && *db != nil && bdb(*db) && (*db).timeSource != nil
+//@ requires          wr:     tx.Writable()
 //@ ensures [C02]     dup:    imp(old(bb_exists(*name)), ret0 != nil && imp(io_fails == old(io_fails), errcode(ret0) == gofakes3.ErrBucketAlreadyExists))
 //@ ensures [C02]     made:   imp(ret0 == nil, !old(bb_exists(*name)) && bb_exists(*name) && allstr(k, !bk_has(*name, k)))
-//@ ensures [C02,C10] others: allstr(bn, imp(bn != *name && bn != "_meta", bb_exists(bn) == old(bb_exists(bn)) && bk_has(bn) == old(bk_has(bn)))) && bk_val == old(bk_val)
-//@ modifies bb_exists(*name), bk_has(*name), io_fails
+//@ ensures [C02,C10] others: allstr(bn, imp(bn != *name && bn != "_meta", bb_exists(bn) == old(bb_exists(bn)) && bk_has(bn) == old(bk_has(bn)) && bk_val(bn) == old(bk_val(bn))))
+//@ modifies bb_exists(*name), bk_has(*name), io_fails, bb_exists("_meta"), bk_has("_meta"), bk_val("_meta")
 
 //@ func (*Backend).DeleteBucket
 //@ props C02 C10 C09
@@ -177,17 +191,18 @@ package s3bolt
 //@ ensures [C02]     nobucket: imp(name != "_meta" && !old(bb_exists(name)), errcode(ret0) == gofakes3.ErrNoSuchBucket)
 //@ ensures [C02]     nonempty: imp(name != "_meta" && old(bb_exists(name)) && !allstr(k, !old(bk_has(name, k))), errcode(ret0) == gofakes3.ErrBucketNotEmpty)
 //@ ensures [C02]     gone:   imp(ret0 == nil, old(bb_exists(name)) && !bb_exists(name) && allstr(k, !old(bk_has(name, k))))
-//@ ensures [C02,C10] others: imp(ret0 == nil, allstr(bn, imp(bn != name && bn != "_meta", bb_exists(bn) == old(bb_exists(bn)) && bk_has(bn) == old(bk_has(bn)))) && bk_val == old(bk_val))
+//@ ensures [C02,C10] others: imp(ret0 == nil, allstr(bn, imp(bn != name && bn != "_meta", bb_exists(bn) == old(bb_exists(bn)) && bk_has(bn) == old(bk_has(bn)) && bk_val(bn) == old(bk_val(bn)))))
 //@ ensures [C02,C08] reject: imp(ret0 != nil, bb_exists == old(bb_exists) && bk_has == old(bk_has) && bk_val == old(bk_val))
 //@ func (*Backend).DeleteBucket$1
 //@ props C02 C10 C09
 //@ requires [C10]    notmeta: str(*nameBts) != "_meta"
 //@ requires          args:   tx != nil && nameBts != nil && name != nil && db != nil && *db != nil && bdb(*db) && *name == str(*nameBts)
+//@ requires          wr:     tx.Writable()
 //@ ensures [C02]     nobucket: imp(!old(bb_exists(*name)), errcode(ret0) == gofakes3.ErrNoSuchBucket)
 //@ ensures [C02]     nonempty: imp(old(bb_exists(*name)) && !allstr(k, !old(bk_has(*name, k))), errcode(ret0) == gofakes3.ErrBucketNotEmpty)
 //@ ensures [C02]     gone:   imp(ret0 == nil, old(bb_exists(*name)) && !bb_exists(*name) && allstr(k, !old(bk_has(*name, k))))
-//@ ensures [C02,C10] others: allstr(bn, imp(bn != *name && bn != "_meta", bb_exists(bn) == old(bb_exists(bn)) && bk_has(bn) == old(bk_has(bn)))) && bk_val == old(bk_val)
-//@ modifies bb_exists(*name), bk_has(*name), io_fails
+//@ ensures [C02,C10] others: allstr(bn, imp(bn != *name && bn != "_meta", bb_exists(bn) == old(bb_exists(bn)) && bk_has(bn) == old(bk_has(bn)) && bk_val(bn) == old(bk_val(bn))))
+//@ modifies bb_exists(*name), bk_has(*name), io_fails, bb_exists("_meta"), bk_has("_meta"), bk_val("_meta")
 
 //@ func (*Backend).ForceDeleteBucket
 //@ props C02 C10 C09
@@ -195,18 +210,19 @@ package s3bolt
 //@ ensures [C10]     meta:   imp(name == "_meta", errcode(ret0) == gofakes3.ErrInvalidBucketName)
 //@ ensures [C02]     nobucket: imp(name != "_meta" && !old(bb_exists(name)), errcode(ret0) == gofakes3.ErrNoSuchBucket)
 //@ ensures [C02]     gone:   imp(ret0 == nil, old(bb_exists(name)) && !bb_exists(name))
-//@ ensures [C02,C10] others: imp(ret0 == nil, allstr(bn, imp(bn != name && bn != "_meta", bb_exists(bn) == old(bb_exists(bn)) && bk_has(bn) == old(bk_has(bn)))) && bk_val == old(bk_val))
+//@ ensures [C02,C10] others: imp(ret0 == nil, allstr(bn, imp(bn != name && bn != "_meta", bb_exists(bn) == old(bb_exists(bn)) && bk_has(bn) == old(bk_has(bn)) && bk_val(bn) == old(bk_val(bn)))))
 //@ ensures [C02,C08] reject: imp(ret0 != nil, bb_exists == old(bb_exists) && bk_has == old(bk_has) && bk_val == old(bk_val))
 //@ func (*Backend).ForceDeleteBucket$1
 //@ props C02 C10 C09
 //@ requires [C10]    notmeta: str(*nameBts) != "_meta"
 //@ requires          args:   tx != nil && nameBts != nil && name != nil && db != nil && *db != nil && bdb(*db) && *name == str(*nameBts)
+//@ requires          wr:     tx.Writable()
 //@ loop 1 invariant  shape:  b != nil && bk_name(b) == *name && cur_bucket(c) == *name && *name == old(*name) && *nameBts == old(*nameBts) &&
 //@                             allstr(bn, imp(bn != *name, bk_has(bn) == old(bk_has(bn)))) && bb_exists == old(bb_exists) && bk_val == old(bk_val)
 //@ ensures [C02]     nobucket: imp(!old(bb_exists(*name)), errcode(ret0) == gofakes3.ErrNoSuchBucket)
 //@ ensures [C02]     gone:   imp(ret0 == nil, old(bb_exists(*name)) && !bb_exists(*name))
-//@ ensures [C02,C10] others: allstr(bn, imp(bn != *name && bn != "_meta", bb_exists(bn) == old(bb_exists(bn)) && bk_has(bn) == old(bk_has(bn)))) && bk_val == old(bk_val)
-//@ modifies bb_exists(*name), bk_has(*name), io_fails
+//@ ensures [C02,C10] others: allstr(bn, imp(bn != *name && bn != "_meta", bb_exists(bn) == old(bb_exists(bn)) && bk_has(bn) == old(bk_has(bn)) && bk_val(bn) == old(bk_val(bn))))
+//@ modifies bb_exists(*name), bk_has(*name), io_fails, bb_exists("_meta"), bk_has("_meta"), bk_val("_meta")
 
 // C01/C02/C11: what a read answers, in terms of the file's state
 //@ func (*Backend).GetObject
@@ -218,7 +234,7 @@ package s3bolt
 //@ ensures [C02,C10] nobucket: imp(bucketName == "_meta" || !bb_exists(bucketName), errcode(ret1) == gofakes3.ErrNoSuchBucket)
 //@ ensures [C02]     nokey:  imp(bucketName != "_meta" && bb_exists(bucketName) && !bk_has(bucketName, objectName), errcode(ret1) == gofakes3.ErrNoSuchKey)
 //@ ensures [C02]     found:  imp(ret1 == nil, bucketName != "_meta" && bb_exists(bucketName) && bk_has(bucketName, objectName))
-//@ ensures [C01]     fields: imp(ret1 == nil, ret0 != nil && ret0.Name == objectName && ret0.Size == bsSize(V) && ret0.Metadata == bsMeta(V) &&
+//@ ensures [C01,C11] fields: imp(ret1 == nil, ret0 != nil && ret0.Name == objectName && ret0.Size == bsSize(V) && ret0.Metadata == bsMeta(V) &&
 //@                             len(ret0.Hash) == bsHLen(V) && all(i, 0, bsHLen(V), ret0.Hash[i] == bsHByte(V, i)) && ret0.Contents != nil)
 //@ ensures [C11]     badrange: imp(bucketName != "_meta" && bb_exists(bucketName) && bk_has(bucketName, objectName) && rangeRequest != nil &&
 //@                             !gofakes3.specRangeOK(rangeRequest.FromEnd, rangeRequest.Start, rangeRequest.End, bsSize(V)), ret1 != nil)
@@ -252,7 +268,7 @@ package s3bolt
 //@ requires          file:   boltInv()
 //@ ensures [C02,C10] nobucket: imp(bucketName == "_meta" || !bb_exists(bucketName), errcode(ret1) == gofakes3.ErrNoSuchBucket)
 //@ ensures [C02]     nokey:  imp(bucketName != "_meta" && bb_exists(bucketName) && !bk_has(bucketName, objectName), errcode(ret1) == gofakes3.ErrNoSuchKey)
-//@ ensures [C01]     fields: imp(ret1 == nil, ret0 != nil && ret0.Name == objectName && ret0.Size == bsSize(V) && ret0.Metadata == bsMeta(V) &&
+//@ ensures [C01,C11] fields: imp(ret1 == nil, ret0 != nil && ret0.Name == objectName && ret0.Size == bsSize(V) && ret0.Metadata == bsMeta(V) &&
 //@                             len(ret0.Hash) == bsHLen(V) && all(i, 0, bsHLen(V), ret0.Hash[i] == bsHByte(V, i)) && ret0.Range == nil)
 //@ ensures [C01]     nobody: imp(ret1 == nil, typeis(ret0.Contents, s3io.NoOpReadCloser))
 //@ ensures [C02,C10] same:   bb_exists == old(bb_exists) && bk_has == old(bk_has) && bk_val == old(bk_val)
@@ -289,7 +305,7 @@ package s3bolt
 //@ ensures [C02,C10] others: imp(ret0 == nil, bb_exists == old(bb_exists) &&
 //@                             allstr(bn, allstr(k, imp(bn != *bucketName || k != *objectName,
 //@                               bk_has(bn, k) == old(bk_has(bn, k)) && bk_val(bn, k) == old(bk_val(bn, k))))))
-//@ modifies bk_has(*bucketName), bk_val(*bucketName)
+//@ modifies bk_has(*bucketName), bk_val(*bucketName), io_fails
 
 // C02: deleting is idempotent, removes exactly the addressed key, and reports a missing bucket
 //@ func (*Backend).DeleteObject
@@ -306,7 +322,7 @@ package s3bolt
 //@ ensures [C02]     nobucket: imp(!old(bb_exists(*bucketName)), errcode(ret0) == gofakes3.ErrNoSuchBucket)
 //@ ensures [C02]     gone:   imp(ret0 == nil, bk_has(*bucketName) == upd(old(bk_has(*bucketName)), *objectName, false))
 //@ ensures [C02]     keep:   imp(ret0 != nil, bk_has(*bucketName) == old(bk_has(*bucketName)))
-//@ modifies bk_has(*bucketName)
+//@ modifies bk_has(*bucketName), io_fails
 
 //@ func (*Backend).DeleteMulti
 //@ props C02 C10 C09
@@ -329,4 +345,4 @@ package s3bolt
 //@ ensures [C02]     gone:   imp(ret0 == nil && len(result.Error) == old(len(result.Error)), all(j, 0, len(*objects), !bk_has(*bucketName, (*objects)[j])))
 //@ ensures [C02]     kept:   allstr(k, imp(all(j, 0, len(*objects), (*objects)[j] != k), bk_has(*bucketName, k) == old(bk_has(*bucketName, k))))
 //@ ensures [C02]     answer: imp(ret0 == nil, len(result.Deleted) + len(result.Error) == old(len(result.Deleted) + len(result.Error)) + len(*objects))
-//@ modifies bk_has(*bucketName), result.Deleted, result.Error
+//@ modifies bk_has(*bucketName), result.Deleted, result.Error, io_fails
